@@ -378,7 +378,6 @@ impl Format {
                     if char == '-' {
                         offset_sign = -1;
                     }
-                    prev_idx += 1;
                 }
             }
         }
